@@ -180,4 +180,79 @@ mod verif_nx_parse {
         println!("NX parse_cover_len4: {} cases", n);
         assert!(n > 200_000, "enumeration ran");
     }
+
+    // Contract of DirectiveTree::parse(..).passes() (C04: "conditional-directive passes visit each branch once (number of
+    // passes linear in branches)"; C14: every token is in some pass).  The tree is iterator-generic recursion over a
+    // recursive datatype with itertools adapters: outside Verus' subset, and Kani did not finish it on two tokens.
+    //   * the iteration ends, with at least one pass and at most (number of conditional directives + 1) passes;
+    //   * a pass lists valid token positions in strictly increasing order and never a conditional directive;
+    //   * every token that is not a conditional directive is in at least one pass - in every pass if there is no directive.
+    fn check_passes(text: &str, n: &mut u64) -> usize {
+        let tokens = DelphiLexer {}.lex(text);
+        let ndir = tokens.iter().filter(|t| matches!(t.get_token_type(), RawTokenType::ConditionalDirective(_))).count();
+        let mut seen = vec![0usize; tokens.len()];
+        let mut npass = 0usize;
+        for pass in DirectiveTree::parse(&tokens).passes() {
+            npass += 1;
+            assert!(npass <= ndir + 1, "OB parsecover/passes_linear: at most one pass per conditional directive plus one\n input={:?} directives={} passes>={}", text, ndir, npass);
+            for w in pass.windows(2) {
+                assert!(w[0] < w[1], "OB parsecover/pass_increasing: a pass lists token positions in strictly increasing order\n input={:?} pass={:?}", text, pass);
+            }
+            for &t in &pass {
+                assert!(t < tokens.len(), "OB parsecover/pass_valid_positions: a pass lists valid token positions\n input={:?} pass={:?}", text, pass);
+                assert!(!matches!(tokens[t].get_token_type(), RawTokenType::ConditionalDirective(_)), "OB parsecover/pass_excludes_directives: a pass never contains a conditional directive\n input={:?} pass={:?}", text, pass);
+                seen[t] += 1;
+            }
+        }
+        assert!(npass >= 1, "OB parsecover/passes_linear: there is at least one pass\n input={:?}", text);
+        for (t, &c) in seen.iter().enumerate() {
+            if matches!(tokens[t].get_token_type(), RawTokenType::ConditionalDirective(_)) { continue; }
+            assert!(c >= 1, "OB parsecover/pass_covers_every_token: every token that is not a conditional directive is in at least one pass\n input={:?} token={}", text, t);
+            if ndir == 0 {
+                assert!(c == npass && npass == 1, "OB parsecover/pass_covers_every_token: without directives there is exactly one pass with every token\n input={:?}", text);
+            }
+        }
+        *n += 1;
+        npass
+    }
+
+    #[test]
+    fn verif_nx_directive_passes() {
+        const ITEMS: [&str; 6] = ["{$ifdef A} ", "{$if B} ", "{$else} ", "{$elseif C} ", "{$endif} ", "x "];
+        let mut n = 0u64;
+        // every sequence of <= 8 items (matched, unmatched, dangling)
+        let max_len = if std::env::var("VERIF_NX_THOROUGH").is_ok() { 9 } else { 8 };
+        for len in 0..=max_len {
+            let mut idx = vec![0usize; len];
+            loop {
+                let text: String = idx.iter().map(|&i| ITEMS[i]).collect();
+                check_passes(&text, &mut n);
+                let mut k = len;
+                let mut done = true;
+                while k > 0 {
+                    k -= 1;
+                    idx[k] += 1;
+                    if idx[k] < ITEMS.len() { done = false; break; }
+                    idx[k] = 0;
+                }
+                if done { break; }
+            }
+        }
+        // structured families far beyond the enumeration: k blocks in sequence, k blocks nested, k branches, and mixtures
+        let mut max_seq = 0;
+        for k in 1..=40usize {
+            let seq: String = (0..k).map(|i| format!("{{$ifdef A{}}} a{}; {{$else}} b{}; {{$endif}} ", i, i, i)).collect();
+            max_seq = max_seq.max(check_passes(&seq, &mut n));
+            let nested: String = (0..k).map(|i| format!("{{$ifdef A{}}} a{}; ", i, i)).collect::<String>()
+                + &(0..k).map(|i| format!("{{$else}} b{}; {{$endif}} ", i)).collect::<String>();
+            check_passes(&nested, &mut n);
+            let branches: String = format!("{{$if A}} a; {}{{$else}} z; {{$endif}} ", (0..k).map(|i| format!("{{$elseif B{}}} c{}; ", i, i)).collect::<String>());
+            check_passes(&branches, &mut n);
+            let mixed: String = (0..k).map(|i| format!("{{$ifdef A{}}} a; {{$ifdef B{}}} b; {{$else}} c; {{$endif}} {{$else}} d; {{$ifdef C{}}} e; {{$endif}} {{$endif}} ", i, i, i)).collect();
+            check_passes(&mixed, &mut n);
+        }
+        assert!(max_seq >= 2, "vacuity guard: a two-branch block needs two passes");
+        println!("NX directive_passes: {} cases", n);
+        assert!(n > 2_000_000, "enumeration ran");
+    }
 }
